@@ -102,6 +102,8 @@ type Scenario struct {
 	// NoReports: no error reporting channel is installed (and reporting to stderr is off, as always): panics are still
 	// contained, returned as panic errors with value and stack trace, and remembered as the last reported error.
 	NoReports bool `json:"no_reports,omitempty"`
+	// UnbufferedReports: the error reporting channel has no buffer; a receiver is waiting on it all the time.
+	UnbufferedReports bool `json:"unbuffered_reports,omitempty"`
 }
 
 // Event is one entry of the child's log.
